@@ -438,11 +438,14 @@ def defaults_at_registration(P, R, rule='C15.MPT.8'):
                     for x in walk(r[0]):
                         if isinstance(x, dict) and x.get('k') == 'mem' and x.get('field') == live and sx(x.get('base')) == base:
                             return True
+                        # ... or the file gave the value (an empty list is one): the node is marked present
+                        if isinstance(x, dict) and x.get('k') == 'mem' and x.get('field') == 'present' and root_var(x) is not None and is_var(root_var(x), base):
+                            return True
                 return st
             _, at_exit, _, _ = f.forward(False, on_event, on_edge)
             ok = bool(at_exit) and all(at_exit)
             n += 1
-            R.ob(rule, ok, s, '%s records the default def_%s of %s and establishes the live %s before returning (unconditionally, or unless it already has a value)' % (f.name, live, base, live),
+            R.ob(rule, ok, s, '%s records the default def_%s of %s and establishes the live %s before returning (unconditionally, or unless it already has a value or the file gave it)' % (f.name, live, base, live),
                  key='default-applied:%s:%s' % (f.name, live))
     R.floor(rule, 5, 'defaults recorded by registration functions')
 
